@@ -21,6 +21,16 @@ import EV.Props.C01
 import EV.Props.C12
 import EV.Props.C18
 import EV.Props.C19
+import EV.Props.C03
+import EV.Props.C05
+import EV.Props.C06
+import EV.Props.C07
+import EV.Props.C08
+import EV.Props.C09
+import EV.Props.C11
+import EV.Props.C14
+import EV.Props.C15
+import EV.Props.C17
 namespace EV.Props.C10
 open EV EV.Codec EV.Acc EV.Proofs.CodecPrim EV.Proofs.CodecTx
 
@@ -369,24 +379,50 @@ theorem no_panic_dynafed_roots (H : Hashes) (p : Params) (h : BlockHeader) :
     p.calculateRoot H ≠ none ∧ h.dynafedParamsRoot H ≠ none :=
   ⟨EV.Props.C19.root_no_panic H p, EV.Props.C19.header_root_no_panic H h⟩
 
--- INTEGRATION: add references to no-panic lemmas of C03/C06/C08/C13/C14/C15/C16/C17 here.
--- Expected lemma names (one `theorem no_panic_<api> … := <reference>` line each, plus the import):
---   C16 (scripts)        EV.Props.C16.instructions_no_panic, EV.Props.C16.asm_no_panic,
---                        EV.Props.C16.read_scriptint_no_panic      (fuller iterator + `fmt_asm`, `read_scriptint`)
---   C17/C06 (blech32)    EV.Props.C17.unchecked_new_no_panic, EV.Props.C17.checked_new_no_panic,
---                        EV.Props.C17.segwit_new_no_panic, EV.Props.C17.segwit_new_bech32_no_panic,
---                        EV.Props.C06.address_from_str_no_panic, EV.Props.C06.parse_with_params_no_panic
---   C15 (taproot)        EV.Props.C15.builder_insert_no_panic, EV.Props.C15.finalize_no_panic,
---                        EV.Props.C15.huffman_no_panic, EV.Props.C15.control_block_no_panic
---   C03/C13 (sighash)    EV.Props.C03.taproot_sighash_no_panic (all indices, all sighash types,
---                        `Prevouts::All` of wrong length, `Prevouts::One` with wrong index),
---                        EV.Props.C13.legacy_segwit_panic_only_if_documented
---   C08/C14 (PSET)       EV.Props.C08.pset_decode_no_panic, EV.Props.C08.extract_tx_no_panic,
---                        EV.Props.C08.locktime_no_panic, EV.Props.C08.unique_id_no_panic,
---                        EV.Props.C14.merge_no_panic (incl. global xpub key sources of every relation)
---   C04/C05/C09 (blind)  EV.Props.C09.blind_no_panic (no marked output ⇒ TooFewBlindingOutputs),
---                        EV.Props.C04.verify_amt_proofs_no_panic, EV.Props.C05.unblind_no_panic
--- Until then these APIs are covered for C10 by the direct search only (harness/src/props/c10.rs).
+/-! ### fallible APIs owned by other properties: totality lemmas proved there (integration) -/
+
+/-- taproot signature hash (`SighashCache::taproot_*`): for every index (also ≥ #inputs / #outputs), every
+    `SchnorrSighashType`, `Prevouts::All` of any length and `Prevouts::One` with any index the result is a
+    message or one of the five named errors — never a panic (C03) -/
+theorem no_panic_taproot_sighash : type_of% @EV.Props.C03.taproot_never_panics := @EV.Props.C03.taproot_never_panics
+
+/-- `Address::from_str` / `parse_with_params` (C06) and the blech32 / bech32 segwit decoders incl.
+    `new_bech32` (C17) -/
+theorem no_panic_address_parse : type_of% @EV.Props.C06.parse_total := @EV.Props.C06.parse_total
+theorem no_panic_segwit_hrpstring : type_of% @EV.Props.C17.segwitNew_total := @EV.Props.C17.segwitNew_total
+
+/-- the PSET decoder on any byte string (C07) -/
+theorem no_panic_pset_deserialize : type_of% @EV.Props.C07.dec_total := @EV.Props.C07.dec_total
+
+/-- `Pset::{extract_tx, unique_id, locktime}` (C08): the two `unreachable!()` arms of `locktime` are unreachable -/
+theorem no_panic_pset_extract_tx : type_of% @EV.Props.C08.extract_no_panic := @EV.Props.C08.extract_no_panic
+theorem no_panic_pset_unique_id : type_of% @EV.Props.C08.unique_id_no_panic := @EV.Props.C08.unique_id_no_panic
+theorem no_panic_pset_locktime : type_of% @EV.Props.C08.locktime_no_panic := @EV.Props.C08.locktime_no_panic
+
+/-- `Pset::merge` incl. the global xpub key-source reconciliation for every pair of key sources (C14) -/
+theorem no_panic_pset_merge : type_of% @EV.Props.C14.merge_no_panic := @EV.Props.C14.merge_no_panic
+theorem no_panic_xpub_reconcile : type_of% @EV.Props.C14.xpub_reconcile_no_panic := @EV.Props.C14.xpub_reconcile_no_panic
+theorem no_panic_xpub_merge : type_of% @EV.Props.C14.xpub_merge_no_panic := @EV.Props.C14.xpub_merge_no_panic
+
+/-- `blind_non_last` / `blind_last` and whole multi-party flows (C09) -/
+theorem no_panic_pset_blinders : type_of% @EV.Props.C09.blinders_never_panic := @EV.Props.C09.blinders_never_panic
+theorem no_panic_pset_blind_flow : type_of% @EV.Props.C09.flow_never_panics := @EV.Props.C09.flow_never_panics
+
+/-- the output loop of `verify_tx_amt_proofs` (C05) -/
+theorem no_panic_verify_outputs : type_of% @EV.Props.C05.outputs_no_panic := @EV.Props.C05.outputs_no_panic
+
+/-- `TaprootBuilder` with arbitrary depths, `ControlBlock::from_slice`, Huffman construction (C15) -/
+theorem no_panic_taproot_builder : type_of% @EV.Props.C15.builder_no_panic := @EV.Props.C15.builder_no_panic
+theorem no_panic_control_block_decode : type_of% @EV.Props.C15.cb_decode_no_panic := @EV.Props.C15.cb_decode_no_panic
+theorem no_panic_huffman : type_of% @EV.Props.C15.huffman_total := @EV.Props.C15.huffman_total
+
+/-- issuance id derivation on any input (C11) -/
+theorem no_panic_issuance_ids : type_of% @EV.Props.C11.ids_no_panic := @EV.Props.C11.ids_no_panic
+
+-- Not referenced here because their statements are not of the form "never panics":
+--   `Transaction::blind` (C04 `blind_none_marked_err`, `blind_not_all_explicit_err`: errors, not panics),
+--   documented panics of legacy/segwit sighash (C03 `legacy_out_of_range_panics`, `segwit_out_of_range_panics`:
+--   panic exactly when index ≥ #inputs), `Builder::push_scriptint(i64::MIN)` (C16 `push_i64_min_panics`).
 
 /-! ### non-vacuity -/
 section Examples
